@@ -26,3 +26,6 @@ func (a Z) Gt(b Z) bool    { return a.v.Cmp(b.v) > 0 }
 func (a Z) Ge(b Z) bool    { return a.v.Cmp(b.v) >= 0 }
 func (a Z) Eq(b Z) bool    { return a.v.Cmp(b.v) == 0 }
 func (a Z) IsInt64() bool  { return a.v.IsInt64() }
+
+// Ok: the delivery succeeded (no error, no panic). A panicking message is a failed, rolled-back message.
+func Ok(err error, panicked bool) bool { return err == nil && !panicked }
